@@ -39,6 +39,7 @@ def step (line : String) : String :=
   | "config" :: rest => Hc.Drv.Config.handle rest
   | "notify" :: rest => Hc.Drv.Notify.handle rest
   | "charhttp" :: rest => Hc.Drv.CharHttp.handle rest
+  | "chunkw" :: rest => Hc.Drv.CharHttp.handleChunkw rest
   | "tlvs" :: rest => Hc.Drv.Tlv8Struct.handle rest
   | "plain" :: rest => Hc.Drv.PlainFraming.handle rest
   | "sess" :: rest => Hc.Drv.SessLookup.handle rest
